@@ -1,2 +1,4 @@
+import Dawgs.Props.C06
+import Dawgs.Props.C06Sites
 import Dawgs.Props.C09
 import Dawgs.Props.C16
